@@ -7,8 +7,8 @@
    The main statement holds for every class and every input (no domain restriction since the
    empty-string alias was repaired in /repo 7108448). *)
 From Coq Require Import List String Ascii ZArith Bool.
-From Verif Require Import Regex PyK PyK_strat PyK_alias FieldDecl FieldDeclProofs KeyModel KeyImpl KeyProofs KeyDecl KeyCfg KeyNested KeyRewrite KeyHook KeyDc KeyDcDecl KeyDeep.
-From VerifGen Require Import K4 K5.
+From Verif Require Import Regex PyK PyK_strat PyK_alias FieldDecl FieldDeclProofs KeyModel KeyImpl KeyProofs KeyDecl KeyCfg KeyNested KeyRewrite KeyHook KeyDc KeyDcDecl KeyDeep KeyDeepHook PyK_clsdiscr KeyDiscr KeyHookLookup KeyFull KeyInit.
+From VerifGen Require Import K4 K5 K109a K109b K109c.
 Import ListNotations.
 Open Scope string_scope.
 Open Scope list_scope.
@@ -287,6 +287,193 @@ Example C09_nonvacuous_deep :
   /\ deep_impl 10 [n2; n1; k] 2 [(KeyS "x", VD [(KeyS "m", VD [(KeyS "aq", VL [VD [(KeyS "ar", VZ 1); (KeyS "junk", VZ 0)]])])])]
   = DInvalid "x".
 Proof. split; vm_compute; reflexivity. Qed.
+
+(* ---- __pre_deserialize__ on nested classes: each class's hook rewrites the mapping handed to that class, at any
+   depth and inside containers, before that class's key rules and extra-key check ---- *)
+Theorem C09_deep_hooks : forall fuel tb hs k d, deeph_impl fuel tb hs k d = deeph_ref fuel tb hs k d.
+Proof. exact deeph_impl_eq_ref. Qed.
+Print Assumptions C09_deep_hooks.
+
+Theorem C09_deep_no_hooks : forall rd ex fuel tb k d, deeph rd ex fuel tb [] k d = deep rd ex fuel tb k d.
+Proof. exact deeph_no_hooks. Qed.
+Print Assumptions C09_deep_no_hooks.
+
+Theorem C09_inner_hook : forall rd ex fu tb hs i nc d,
+  nth_error tb i = Some nc ->
+  dech rd ex (S fu) tb hs (TCls i) (VD d)
+  = match obj rd ex (dech rd ex fu tb hs) nc (tapply_hook (hook_of hs i) d) with
+    | DInst vs => Some (RObj vs) | _ => None end.
+Proof. exact inner_hook_applies. Qed.
+Print Assumptions C09_inner_hook.
+
+(* N: r alias "ar", forbid_extra_keys, hook renames "legacy" to "ar".  K: x: List[N]; K's own hook drops "junk".
+   Inside the list "legacy" is accepted (N's hook), at the top it is not K's business; K's hook does not reach
+   the elements: "junk" inside an element is an extra key of N and invalidates x *)
+Example C09_nonvacuous_deep_hooks :
+  let n := mkN (mkC [mkF "r" (Some "ar") None false] [] false true None) [] in
+  let k := mkN (mkC [mkF "x" None None false] [] false true None) [("x", TList (TCls 0))] in
+  let hs := [Some [HRename (KeyS "legacy") (KeyS "ar")]; Some [HDrop (KeyS "junk")]] in
+  deeph_ref 10 [n; k] hs 1 [(KeyS "x", VL [VD [(KeyS "legacy", VZ 1)]; VD [(KeyS "ar", VZ 2)]]); (KeyS "junk", VZ 0)]
+  = DInst [("x", Some (RList [RObj [("r", Some (RZ 1))]; RObj [("r", Some (RZ 2))]]))]
+  /\ deeph_impl 10 [n; k] hs 1 [(KeyS "x", VL [VD [(KeyS "ar", VZ 1); (KeyS "junk", VZ 0)]])] = DInvalid "x"
+  /\ deeph_ref 10 [n; k] [None; None] 1 [(KeyS "x", VL [VD [(KeyS "legacy", VZ 1)]])] = DInvalid "x".
+Proof. repeat split; vm_compute; reflexivity. Qed.
+
+(* ---- which class-level discriminator: CodeBuilder.get_discriminator translated (K109a), run on the class objects
+   of a hierarchy (MRO nearest class first; every class with the Config its body defines, every Config with the
+   Config it derives from / BaseConfig / nothing and the `discriminator` line it writes) ---- *)
+
+(* get_discriminator(look_in_parents=True) = the discriminator of the first class along the MRO whose OWN Config has
+   one by Python's attribute lookup on that Config class; this is the object whose field the allowed keys get *)
+Theorem C09_get_discriminator : forall r,
+  get_discriminator (cls_obj_d r) base_config_d (KBool true) = Ok (enc_discr (nearest_discr r)).
+Proof. exact get_discriminator_parents. Qed.
+Print Assumptions C09_get_discriminator.
+
+(* get_discriminator() = that of the class's own Config: the test that turns from_dict into a dispatcher *)
+Theorem C09_own_discriminator : forall r,
+  get_discriminator (cls_obj_d r) base_config_d (KBool false) = Ok (enc_discr (own_discr r)).
+Proof. exact get_discriminator_own. Qed.
+Print Assumptions C09_own_discriminator.
+
+(* the generated from_dict of the class a hierarchy denotes -- dispatcher test, get_config, get_discriminator for
+   the allowed keys, __get_field_alias, the emitted lookups: all translated -- is KEYMODEL of that class with the
+   nearest class-level discriminator, for every hierarchy and every input (a dispatcher reads no field: C05) *)
+Theorem C09_keys_discr : forall r d,
+  impl_from_dhier r d
+  = Ok (match own_discr r with
+        | Some _ => Dispatcher
+        | None => Body (keymodel (class_of (rev (map fst r)) (nearest_discr r)) d)
+        end).
+Proof. exact impl_from_dhier_keymodel. Qed.
+Print Assumptions C09_keys_discr.
+
+(* "a class-level discriminator field is accepted": the tag key of the nearest discriminator is in the accepted
+   set whatever fields, aliases and options the class has *)
+Theorem C09_discr_accepted : forall r s,
+  nearest_discr r = Some (Some s) -> s <> "" ->
+  In (KeyS s) (accepted (class_of (rev (map fst r)) (nearest_discr r))).
+Proof. exact nearest_discr_accepted. Qed.
+Print Assumptions C09_discr_accepted.
+
+(* a Config deriving from a Config that has a discriminator hands it on: its class is a dispatcher as well;
+   a class without Config of its own never is one *)
+Theorem C09_discr_config_inheritance : forall l cd w r',
+  (l_cfg l = Some cd -> cd_inherit cd = true -> own_discr ((l, DAbsent) :: r') = cfg_discr r')
+  /\ (l_cfg l = None -> own_discr ((l, w) :: r') = None).
+Proof.
+  intros l cd w r'. split; [exact (inherited_config_dispatches l cd r') | exact (no_own_config_no_dispatch l w r')].
+Qed.
+Print Assumptions C09_discr_config_inheritance.
+
+(* A: Config(discriminator on "t").  B(A): plain Config writing discriminator on "u".  K(B): own Config
+   (forbid_extra_keys, aliases x -> ax), no discriminator line.  K.from_dict accepts "u" (B is nearer than A), not "t";
+   with B's line removed it accepts "t"; a K whose Config derives from B's is a dispatcher. *)
+Example C09_nonvacuous_discr :
+  let cfgA := Some (mkCD false false None None None) in
+  let cfgB := Some (mkCD false true None None None) in
+  let cfgK := Some (mkCD false false (Some [("x", "ax")]) None (Some true)) in
+  let a := (mkL [] cfgA, DObj (Some "t")) in
+  let b w := (mkL [] cfgB, w) in
+  let k := (mkL [(mkF "x" None None false, true)] cfgK, DAbsent) in
+  let d := [(KeyS "ax", 1%Z); (KeyS "t", 2%Z); (KeyS "u", 3%Z)] in
+  impl_from_dhier [k; b (DObj (Some "u")); a] d = Ok (Body (OExtra [KeyS "t"]))
+  /\ impl_from_dhier [k; b DAbsent; a] d = Ok (Body (OExtra [KeyS "u"]))
+  /\ impl_from_dhier [k; b DNone; a] [(KeyS "ax", 1%Z); (KeyS "t", 2%Z)] = Ok (Body (OInst [("x", Some (KeyS "ax", 1%Z))]))
+  /\ impl_from_dhier [(mkL [] (Some (mkCD true false None None None)), DAbsent); b (DObj None); a] d = Ok Dispatcher
+  /\ get_discriminator (cls_obj_d [k; b (DObj (Some "u")); a]) base_config_d (KBool true)
+     = Ok (KNs [("__class__", KStr "Discriminator"); ("field", KStr "u")]).
+Proof. repeat split; vm_compute; reflexivity. Qed.
+
+(* ---- which __pre_deserialize__: CodeBuilder.get_declared_hook + helpers.get_class_that_defines_method translated
+   (K109b), run on the class objects of a hierarchy (dataclasses of the MRO nearest first, then DataClassDictMixin with
+   its stub if the mixins are used, then object) ---- *)
+
+(* the hook of the nearest class whose body defines one; the mixin's own stub is not a hook *)
+Theorem C09_declared_hook : forall hs mixin,
+  get_declared_hook (cls_obj_h hs mixin) A_PRE = Ok (enc_hook (declared_idx hs))
+  /\ dec_hook hs (enc_hook (declared_idx hs)) = declared_hook hs.
+Proof. intros hs mixin. split; [apply get_declared_hook_spec | apply dec_enc_hook]. Qed.
+Print Assumptions C09_declared_hook.
+
+(* the generated from_dict with the hook found by the translated lookup: KEYMODEL on the mapping rewritten by the
+   nearest hook (= C09_pre_hook with KeyRewrite.nearest_hook replaced by the code) *)
+Theorem C09_pre_hook_code : forall hooks mixin ls discr d,
+  impl_hooked_code hooks mixin ls discr d
+  = Ok (keymodel (class_of ls discr) (apply_hook (declared_hook (rev hooks)) d))
+  /\ nearest_hook hooks = declared_hook (rev hooks).
+Proof. intros. split; [apply impl_hooked_code_keymodel | apply nearest_hook_declared]. Qed.
+Print Assumptions C09_pre_hook_code.
+
+(* A defines a hook (drop "junk"), B(A) another (rename "legacy" -> "ax"), K(B) none: K runs B's; without B's, A's;
+   with the mixins and no hook anywhere the stub of DataClassDictMixin is found and ignored *)
+Example C09_nonvacuous_hook_lookup :
+  let ha := Some [HDrop (KeyS "junk")] in
+  let hb := Some [HRename (KeyS "legacy") (KeyS "ax")] in
+  let ls := [mkL [(mkF "x" (Some "ax") None false, true)] (Some (mkCD false false None None (Some true)))] in
+  get_declared_hook (cls_obj_h [None; hb; ha] true) A_PRE = Ok (hook_val 1)
+  /\ get_declared_hook (cls_obj_h [None; None; ha] true) A_PRE = Ok (hook_val 0)
+  /\ get_declared_hook (cls_obj_h [None; None] true) A_PRE = Ok KNone
+  /\ get_class_that_defines_method A_PRE (cls_obj_h [None; None] true) = Ok (class_of_entry mixin_entry)
+  /\ impl_hooked_code [ha; hb; None] true ls None [(KeyS "legacy", 1%Z)] = Ok (OInst [("x", Some (KeyS "ax", 1%Z))])
+  /\ impl_hooked_code [ha; None; None] false ls None [(KeyS "legacy", 1%Z)] = Ok (OExtra [KeyS "legacy"]).
+Proof. repeat split; vm_compute; reflexivity. Qed.
+
+(* ---- all decisions of _add_unpack_method_lines in the order the code takes them, each through a translated
+   function (own discriminator -> dispatcher; declared hook; get_config; __get_field_alias; discriminator of the
+   MRO + allowed_keys; key_plan): KEYMODEL of the class the hierarchy denotes, on the mapping the nearest hook
+   returns, the nearest class-level discriminator accepted -- for every hierarchy, hook assignment and input ---- *)
+Theorem C09_from_class : forall r hooks mixin d,
+  impl_from_class r hooks mixin d
+  = Ok (match own_discr r with
+        | Some _ => Dispatcher
+        | None => Body (keymodel (class_of (rev (map fst r)) (nearest_discr r))
+                                 (apply_hook (declared_hook (rev hooks)) d))
+        end).
+Proof. exact impl_from_class_keymodel. Qed.
+Print Assumptions C09_from_class.
+
+(* A: Config(discriminator on "t"), hook renames "legacy" -> "ax".  K(A): Config(forbid_extra_keys, aliases x -> ax).
+   K.from_dict({"legacy": 1, "t": 2}) reads x from the renamed key and accepts A's tag key; "u" is extra;
+   A itself is a dispatcher (its hook is not even consulted) *)
+Example C09_nonvacuous_from_class :
+  let a := (mkL [] (Some (mkCD false false None None None)), DObj (Some "t")) in
+  let k := (mkL [(mkF "x" None None false, true)] (Some (mkCD false false (Some [("x", "ax")]) None (Some true))), DAbsent) in
+  let hooks := [Some [HRename (KeyS "legacy") (KeyS "ax")]; None] in
+  impl_from_class [k; a] hooks true [(KeyS "legacy", 1%Z); (KeyS "t", 2%Z)] = Ok (Body (OInst [("x", Some (KeyS "ax", 1%Z))]))
+  /\ impl_from_class [k; a] hooks true [(KeyS "legacy", 1%Z); (KeyS "u", 2%Z)] = Ok (Body (OExtra [KeyS "u"]))
+  /\ impl_from_class [k; a] [None; None] true [(KeyS "legacy", 1%Z); (KeyS "t", 2%Z)] = Ok (Body (OExtra [KeyS "legacy"]))
+  /\ impl_from_class [a] [Some [HDrop (KeyS "t")]] true [(KeyS "t", 2%Z)] = Ok Dispatcher.
+Proof. repeat split; vm_compute; reflexivity. Qed.
+
+(* ---- which members are read at all: the skip test of the field loop of _add_unpack_method_lines translated (K109c) ----
+   over the declarations a hierarchy collects the loop leaves exactly the init fields in definition order
+   (KeyModel.effective, until now a hand-written `filter snd`); a name without dataclass field is read *)
+Theorem C09_init_filter : forall ls,
+  filtered_code (collect ls) = Ok (effective ls) /\ reads None = Ok true /\ forall p, reads (Some p) = Ok (snd p).
+Proof. intro ls. split; [apply filtered_code_effective | split; [exact reads_none | exact reads_some]]. Qed.
+Print Assumptions C09_init_filter.
+
+(* C09_from_class with the fields chosen by the translated loop test as well *)
+Theorem C09_from_class_fields : forall r hooks mixin d,
+  impl_from_class_fields r hooks mixin d
+  = Ok (match own_discr r with
+        | Some _ => Dispatcher
+        | None => Body (keymodel (class_of (rev (map fst r)) (nearest_discr r))
+                                 (apply_hook (declared_hook (rev hooks)) d))
+        end).
+Proof. exact impl_from_class_fields_keymodel. Qed.
+Print Assumptions C09_from_class_fields.
+
+(* A: x, w; K(A) re-declares w as field(init=False): K.from_dict reads x only, "w" is an extra key *)
+Example C09_nonvacuous_init_filter :
+  let a := (mkL [(mkF "x" None None false, true); (mkF "w" None None true, true)] None, DAbsent) in
+  let k := (mkL [(mkF "w" None None true, false)] (Some (mkCD false false None None (Some true))), DAbsent) in
+  filtered_code (collect [fst a; fst k]) = Ok [mkF "x" None None false]
+  /\ impl_from_class_fields [k; a] [None; None] true [(KeyS "x", 1%Z); (KeyS "w", 2%Z)] = Ok (Body (OExtra [KeyS "w"]))
+  /\ impl_from_class_fields [a] [None] true [(KeyS "x", 1%Z); (KeyS "w", 2%Z)]
+     = Ok (Body (OInst [("x", Some (KeyS "x", 1%Z)); ("w", Some (KeyS "w", 2%Z))])).
+Proof. repeat split; vm_compute; reflexivity. Qed.
 
 (* ---- arbitrary MROs (diamonds): a model of CPython's dataclass walk and of get_type_hints ---- *)
 
